@@ -149,7 +149,7 @@ def run(tier, seed):
                  "member is skipped before the next header is read and the remaining-bytes counter is decreased by exactly the "
                  "compressed bytes handed out; (R4) the member's compressed stream is opened only while the current entry is the basic "
                  "reader's own member and no decoder survives a change of entry; (R5) the lead-in buffer's capacity does not exceed the least number of bytes "
-                 "a successful header read consumes, so the skip never runs with buffered bytes; a NULL from the basic reader leaves no current entry; (R6) every reader field written beneath a decode operation and read back is reset on every path through lha_reader_next_file (only the two documented lists persist). Not decided: the order in which directories and deferred symlinks are re-presented "
+                 "a successful header read consumes, so the skip never runs with buffered bytes; a NULL from the basic reader leaves no current entry; (R6) every reader field written beneath a decode operation and read back is reset on every path through lha_reader_next_file (only the two documented lists persist). (R7) the basic reader is advanced exactly under curr_file_type in {START, NORMAL}; (R7b) the end-of-directory test compares over exactly strlen(top->path) bytes of the top directory's own path; (R7c) 'nothing to present' only with an empty stack or pending input. Not decided: the full order in which directories and deferred symlinks are re-presented "
                  "(a property of call histories).")
     with Context(tier) as ctx:
         from .. import selfcheck
